@@ -92,6 +92,16 @@ Definition state_audit_live (inventory : list state_item) : bool :=
    read a memo (a compound whose inverse collapses to NULL_CONSTRAINT leaves a dangling, never read
    `_inverted` on it).  Hence key = object identity determines the result (C10_keyed_memo_history_independent
    with an injective key). *)
+(* "slot <attr>" rows (phase 4, after the round-3 seeded change): every `self.<attr> = ...` outside
+   __init__/__post_init__ in the value / type-object / signature classes and in Checker, ArgSpecCache,
+   TypeshedFinder -- objects that are shared through Checker-level caches (the return value of a cached
+   signature is ONE TypedValue for all call sites of all files) -- with the assigned expression and the
+   conditions it sits under.  Classification:
+     TypedValue._type_object        write-once, filled only through a context (ctx.make_type_object, itself
+                                    memoised per Checker by type): every route computes the same object; the
+                                    context-less call returns a throw-away TypeObject and must NOT store it
+     TypeAlias.evaluated_value / type_params   write-once, computed by the alias's own evaluator
+     Checker._has_used_any_match    a flag that is reset (qcore.override ... False) around every use *)
 Definition pinned_cache_keys : list cache_key := [
   CacheKey "annotations.py" "_DefaultContext.get_type_alias" "cache" "in" "key";
   CacheKey "annotations.py" "_DefaultContext.get_type_alias" "cache" "load" "key";
@@ -106,6 +116,7 @@ Definition pinned_cache_keys : list cache_key := [
   CacheKey "checker.py" "Checker.make_type_object" "self.type_object_cache" "in" "typ";
   CacheKey "checker.py" "Checker.make_type_object" "self.type_object_cache" "load" "typ";
   CacheKey "checker.py" "Checker.make_type_object" "self.type_object_cache" "store" "typ";
+  CacheKey "checker.py" "Checker.record_any_used" "slot _has_used_any_match" "assign" "True";
   CacheKey "name_check_visitor.py" "NameCheckVisitor._fill_method_cache" "self._method_cache" "store" "typ";
   CacheKey "name_check_visitor.py" "NameCheckVisitor._set_argspec_to_retval" "self._argspec_to_retval" "store" "id(sig)";
   CacheKey "name_check_visitor.py" "NameCheckVisitor.get_local_return_value" "self._argspec_to_retval" "get" "id(sig)";
@@ -129,7 +140,10 @@ Definition pinned_cache_keys : list cache_key := [
   CacheKey "typeshed.py" "TypeshedFinder._value_from_info_inner" "self._assignment_cache" "load" "key := (module, info.ast)";
   CacheKey "typeshed.py" "TypeshedFinder._value_from_info_inner" "self._assignment_cache" "store" "key := (module, info.ast)";
   CacheKey "typeshed.py" "TypeshedFinder.get_attribute_for_fq_name" "self._attribute_cache" "load" "key := (fq_name, attr, on_class)";
-  CacheKey "typeshed.py" "TypeshedFinder.get_attribute_for_fq_name" "self._attribute_cache" "store" "key := (fq_name, attr, on_class)"
+  CacheKey "typeshed.py" "TypeshedFinder.get_attribute_for_fq_name" "self._attribute_cache" "store" "key := (fq_name, attr, on_class)";
+  CacheKey "value.py" "TypeAlias.get_type_params" "slot type_params" "assign" "self.evaluate_type_params() WHEN (self.type_params is None)";
+  CacheKey "value.py" "TypeAlias.get_value" "slot evaluated_value" "assign" "self.evaluator() WHEN (self.evaluated_value is None)";
+  CacheKey "value.py" "TypedValue.get_type_object" "slot _type_object" "assign" "ctx.make_type_object(self.typ) WHEN (self._type_object is None)"
 ]%list.
 
 Fixpoint keys_eqb (a b : list cache_key) : bool :=
@@ -151,3 +165,12 @@ Definition field_status (fs : list (string * string)) (f : string) : string :=
 Definition resolution_key_ok (fs : list (string * string)) : bool :=
   String.eqb (field_status fs "varname") "kept" && String.eqb (field_status fs "node") "kept"
   && String.eqb (field_status fs "state") "kept".
+
+(* The unchanged tree keys TypeObject._protocol_positive_cache by `other_val` only (known finding
+   C10-protocol-positive-cache-key); repo_fixes/C10-protocol-cache-key keys it by (self_val, other_val).
+   Both texts are accepted, anything else fires. *)
+Definition after_protocol_fix (k : cache_key) : cache_key :=
+  if String.eqb (ck_cache k) "self._protocol_positive_cache"
+  then CacheKey (ck_file k) (ck_func k) (ck_cache k) (ck_op k) "cache_key := (self_val, other_val)"
+  else k.
+Definition pinned_cache_keys_after_protocol_fix : list cache_key := map after_protocol_fix pinned_cache_keys.
